@@ -16,7 +16,7 @@
      op   "data" | "ping" | "close"           size "small" (<= 16 KiB) | "large"
      ovr  per-message compress= override given
    send_frame (writer.py):
-     closing and op # close                      -> raises
+     closing and a data frame                    -> raises
      control frame, or no compression at all     -> frame written at once, no lock
      small compressed                            -> async with lock: compress + write
      large compressed                            -> eager inner task; await shield(inner)
@@ -101,7 +101,7 @@ Consume(st, m) ==
                      !.comp = m]
 
 \* _write_websocket_frame
-Refuses(st, m) == CloseLatch /\ st.closing /\ M(m).op # "close"
+Refuses(st, m) == CloseLatch /\ st.closing /\ M(m).op = "data"
 Write(st, m) ==
     IF Refuses(st, m) THEN [st EXCEPT !.refused = @ \cup {m}, !.comp = IF st.comp = m THEN None ELSE @]
     ELSE
@@ -129,7 +129,9 @@ StartSend(st0, s) ==
     LET m == <<s, st0.idx[s]>>
         st == IF st0.closing THEN [st0 EXCEPT !.lateStart = @ \cup {m}] ELSE st0
     IN
-    IF st.closing /\ M(m).op # "close" THEN AfterSend(st, s, "raised")
+    \* `if self._closing and not (opcode & WSMsgType.CLOSE)`: the bit test lets every control frame
+    \* (ping, pong, close) through; RFC 6455 5.5.1 forbids only DATA frames after a Close frame
+    IF st.closing /\ M(m).op = "data" THEN AfterSend(st, s, "raised")
     ELSE IF ~Deflated(m) THEN AfterSend(Write(st, m), s, "returned")
     ELSE IF ~Large(m) THEN
         IF ~SmallTakesLock THEN AfterSend(Write(Consume(st, m), m), s, "returned")
@@ -267,7 +269,7 @@ ExactlyOnce ==
 ControlNeverCompressed == \A i \in 1..Len(Wire) : Wire[i].op # "data" => ~Wire[i].rsv1
 
 \* a send_frame entered after close() completed never puts a data frame on the wire
-NothingAfterClose == \A i \in 1..Len(Wire) : Wire[i].late => Wire[i].op = "close"
+NothingAfterClose == \A i \in 1..Len(Wire) : Wire[i].late => Wire[i].op # "data"
 
 \* stronger, wire-level reading (RFC 6455 5.5.1); NOT guaranteed by the code: a compressed send that
 \* was already waiting for the lock / the executor is written after the Close frame
